@@ -1,0 +1,7 @@
+//go:build !verif
+
+package hls
+
+import "io"
+
+func verifSegmentWriter(w io.Writer) io.Writer { return w }
